@@ -228,7 +228,7 @@ func c10Sort(w vf.Wire) vf.Wire {
 
 // ---- value generator -------------------------------------------------------------------------
 
-var c10Strings = []string{"", "a", "joe", "héllo wörld", "x y\tz", "\"quoted\"", "日本語", "a,omitempty"}
+var c10Strings = p04Strings
 var c10URLs = []string{"https://example.com/path?q=1#frag", "http://user@host:8080/a%20b", "mailto:a@example.com", "/relative/path", "", "urn:ietf:params:oauth"}
 var c10Instants = [][2]int64{{0, 0}, {1, 0}, {-1, 0}, {1300819380, 0}, {1300819380, 500000000}, {-1, 999999999}, {-5, 1},
 	{253402300799, 999999999}, {-253402300800, 1}, {-253402300799, 0}, {1700000000, 123456789}, {-62135596800, 0}, {-62135596800, 1},
@@ -449,6 +449,8 @@ type c10Case struct {
 	// mutate: path into the encoded JSON and the replacement (JSON text)
 	Path []string `json:"path,omitempty"`
 	Repl string   `json:"repl,omitempty"`
+	// mutate: instead of a replacement, the top-level member Path[0] is re-spelled (case / fold variant)
+	Rename string `json:"rename,omitempty"`
 	// number: the JSON number text
 	Text string `json:"text,omitempty"`
 	// claims
@@ -467,6 +469,7 @@ type c10ClaimsIn struct {
 	AudNonNil     bool
 	Exp, Nbf, Iat *[2]int64 // sec, nsec; nil = zero time
 	Extra         string    // JSON object text of additional members
+	BadUTF8       string    // iss|sub|jti|aud: that field gets invalid UTF-8 bytes appended (a Go string json.Marshal cannot carry)
 	NowSec        int64
 	NowNsec       int64
 }
@@ -712,7 +715,8 @@ var c10Repl = []string{"null", "true", "false", `"str"`, `""`, "0", "-1", "1", "
 	"65535", "65536", "2147483647", "2147483648", "-2147483649", "4294967295", "4294967296", "9223372036854775807", "9223372036854775808",
 	"-9223372036854775808", "-9223372036854775809", "18446744073709551615", "18446744073709551616", "1e400", "-0", "0.0", "3.5e38",
 	"[]", "[1]", `["a"]`, `["a",1]`, `[null]`, "{}", `{"a":"x","n":1}`, `{"e1":"z"}`, `"!!notb64"`, `"aGVsbG8"`, `"http://x/%zz"`,
-	`"https://example.com/a?b=c"`, "1300819380.5", "253402300800", `[[1]]`, `{"k":{"a":"y"}}`, `{"k":1}`}
+	`"https://example.com/a?b=c"`, "1300819380.5", "253402300800", `[[1]]`, `{"k":{"a":"y"}}`, `{"k":1}`,
+	`"\ufffd"`, `"\ud800"`, `"a\u0000b"`, `"<>&\u2028"`, `{"\ufffd":1,"K":2,"k ":3}`, `["\ud83d\ude00","\ufeff"]`}
 
 // c10Replace returns obj with the value at path replaced.
 func c10Replace(v any, path []string, repl any) any {
@@ -779,22 +783,39 @@ func execC10Mutate(c *vf.Ctx, d *vf.Driver, cs c10Case) {
 	if p, _ := vf.Recover(func() { err = claims.EncodeCustom(pv.Interface()) }); !p && err == nil {
 		base = claims.Raw
 	}
-	var repl any
-	dec := json.NewDecoder(strings.NewReader(cs.Repl))
-	dec.UseNumber()
-	if dec.Decode(&repl) != nil {
-		return
-	}
 	path := cs.Path
 	var raw map[string]any
 	if len(path) == 0 {
 		return
 	}
-	if _, ok := base[path[0]]; !ok {
-		base[path[0]] = nil
+	if cs.Rename != "" {
+		// claim-NAME spelling: the member keeps its value under a name that only resembles the tag
+		raw, _ = c10CloneJSON(base).(map[string]any)
+		if raw == nil {
+			raw = map[string]any{}
+		}
+		v, ok := raw[path[0]]
+		if !ok {
+			v = "x"
+		}
+		delete(raw, path[0])
+		raw[cs.Rename] = v
+	} else {
+		var repl any
+		dec := json.NewDecoder(strings.NewReader(cs.Repl))
+		dec.UseNumber()
+		if dec.Decode(&repl) != nil {
+			return
+		}
+		if _, ok := base[path[0]]; !ok {
+			base[path[0]] = nil
+		}
+		raw, _ = c10Replace(base, path, repl).(map[string]any)
 	}
-	raw, _ = c10Replace(base, path, repl).(map[string]any)
-	c.Case(fmt.Sprintf("mutate/%s/%d/%v/%s", cs.Type, cs.Seed, path, cs.Repl), true)
+	c.Case(fmt.Sprintf("mutate/%s/%d/%v/%s/%s", cs.Type, cs.Seed, path, cs.Repl, cs.Rename), true)
+	if cs.Rename != "" {
+		c.Count("mutate/renamed-member")
+	}
 	if strings.HasPrefix(ent.Name, "dyn:") {
 		c.Count("mutate/dyn")
 	} else {
@@ -893,6 +914,8 @@ func c10Time(p *[2]int64) time.Time {
 var c10ExtraRaw = []string{`{}`, `{"http://example.com/is_root":true}`, `{"n":1.50,"l":[1,"x",null],"o":{"k":"v"}}`, `{"scope":"a b"}`, ``,
 	`{"iss":"old-issuer"}`, `{"iss":"old-issuer","sub":"old-sub","jti":"old-id","aud":["old1","old2"],"exp":4102444800,"nbf":0,"iat":1.5,"keep":true}`,
 	`{"sub":"old-sub","aud":"old-aud","iat":1300819380}`, `{"exp":253402300799,"nbf":-253402300799.5,"jti":"old-id"}`,
+	`{"Iss":"evil-iss","SUB":"evil-sub","Aud":["evil-aud"],"EXP":3,"Nbf":99999999999,"IAT":"x","Jti":"evil-jti","keep":1}`,
+	`{"iſs":"evil-iss","ſub":"evil-sub","exp ":3," nbf":99999999999,"JTI":7}`, `{"ISS":"evil-iss","Exp":"soon","AUD":"evil-aud"}`,
 	`{"iss":1,"aud":{"a":1}}`, `{"exp":"soon","keep":[1]}`, `{"jti":null,"sub":true,"iat":"x"}`, `{"aud":["a",2]}`, `{"nbf":1e30}`}
 
 var c10Registered = map[string]bool{"iss": true, "sub": true, "aud": true, "exp": true, "nbf": true, "iat": true, "jti": true}
@@ -907,6 +930,9 @@ func c10GenClaims(r *vf.Rand) *c10ClaimsIn {
 	}
 	if r.Intn(3) != 0 {
 		in.Jti = fmt.Sprintf("id-%d", r.Intn(100))
+		if r.Intn(3) == 0 {
+			in.Jti = vf.Pick(r, c10Strings)
+		}
 	}
 	switch r.Intn(5) {
 	case 0:
@@ -950,6 +976,9 @@ func c10GenClaims(r *vf.Rand) *c10ClaimsIn {
 		in.NowSec = 1300819380
 	}
 	in.Extra = vf.Pick(r, c10ExtraRaw)
+	if r.Intn(40) == 0 {
+		in.BadUTF8 = vf.Pick(r, []string{"iss", "sub", "jti", "aud"})
+	}
 	return in
 }
 
@@ -972,6 +1001,57 @@ func execC10Claims(c *vf.Ctx, d *vf.Driver, cs c10Case) {
 		rawW = vf.FromJSON(m)
 	}
 	now := time.Unix(in.NowSec, in.NowNsec).UTC()
+	if in.BadUTF8 != "" {
+		// a Go string that is not valid UTF-8 is outside the model (Lean strings are valid UTF-8) and
+		// cannot round-trip: json.Marshal rewrites the offending bytes.  What must hold is that the
+		// token parses to what the standard library makes of that string — never an error.
+		bad := "x\xff\xfey"
+		var field *string
+		switch in.BadUTF8 {
+		case "iss":
+			cl.Issuer += bad
+			field = &cl.Issuer
+		case "sub":
+			cl.Subject += bad
+			field = &cl.Subject
+		case "jti":
+			cl.JWTID += bad
+			field = &cl.JWTID
+		default:
+			cl.Audience = append(cl.Audience, bad)
+			field = &cl.Audience[len(cl.Audience)-1]
+		}
+		var viaStd string
+		b, _ := json.Marshal(*field)
+		json.Unmarshal(b, &viaStd)
+		c.Case("claims/badutf8/"+in.BadUTF8+in.Iss+in.Sub, true)
+		c.Count("claims/invalid-utf8-" + in.BadUTF8)
+		tok, stage, err := c10SignParse(cl, now)
+		if err != nil {
+			if stage == "parse" && (strings.Contains(err.Error(), "expired") || strings.Contains(err.Error(), "not valid yet") || strings.Contains(err.Error(), "unix time") || strings.Contains(err.Error(), "want ") || strings.Contains(err.Error(), "aud claim") || strings.Contains(err.Error(), "failed to parse parameter")) || stage == "sign" {
+				return // time checks, or ill-typed registered members in Raw
+			}
+			f.fail(vf.Violation{Kind: "property", Class: "c10-string-content", What: "a token signed from a Go string with invalid UTF-8 does not parse", Case: cs, Observed: err.Error(), Required: "the standard library's rewriting: " + strconv.Quote(viaStd)})
+			return
+		}
+		var got string
+		switch in.BadUTF8 {
+		case "iss":
+			got = tok.Claims.Issuer
+		case "sub":
+			got = tok.Claims.Subject
+		case "jti":
+			got = tok.Claims.JWTID
+		default:
+			if n := len(tok.Claims.Audience); n > 0 {
+				got = tok.Claims.Audience[n-1]
+			}
+		}
+		if got != viaStd {
+			f.fail(vf.Violation{Kind: "property", Class: "c10-string-content", What: "invalid UTF-8 in " + in.BadUTF8 + " is not rewritten as encoding/json does", Case: cs, Observed: strconv.Quote(got), Required: strconv.Quote(viaStd)})
+		}
+		return
+	}
 	tok, stage, err := c10SignParse(cl, now)
 	impl := "ok"
 	if err != nil {
@@ -1258,6 +1338,11 @@ func runC10(c *vf.Ctx) {
 			cs.Path = c10RandomPath(r, base)
 			if len(cs.Path) == 0 {
 				cs.Path = []string{vf.Pick(r, []string{"v", "m", "ms", "w", "b", "a", "c", "x", "emb", "h"})}
+			}
+			if i%6 == 5 {
+				if vs := p04NameVariants(cs.Path[0]); len(vs) > 0 {
+					cs.Path, cs.Rename = cs.Path[:1], vf.Pick(r, vs)
+				}
 			}
 			execC10(c, d, cs)
 		}
